@@ -201,6 +201,23 @@ class StereoCondensedReactionGraph(StereoMolGraph, CondensedReactionGraph):
         else:
             del self._bond_stereo_change[bond][stereo_change]
 
+    def remove_atom(self, atom: AtomId):
+        """Removes an atom from the graph and deletes all stereo information
+        and all stereo changes associated with it
+
+        :param atom: Atom
+        """
+        if atom not in self._atom_attrs:
+            raise KeyError(atom)
+        for changes in (self._atom_stereo_change, self._bond_stereo_change):
+            for key, change_dict in list(changes.items()):
+                for stereo_change, stereo in list(change_dict.items()):
+                    if stereo is not None and atom in stereo.atoms:
+                        del change_dict[stereo_change]
+                if not change_dict:
+                    del changes[key]
+        super().remove_atom(atom)
+
     def active_atoms(self, additional_layer: int = 0) -> set[AtomId]:
         """
         Atoms involved in the reaction with additional layers of atoms
